@@ -51,7 +51,7 @@ ASSUMPTIONS = [
 N_SLOTS = 3
 
 
-EXPECTED_PROBES = ['labels_propagated_between_saves', 'non_float64_training_data', 'load_checked', 'load_of_save_made_after_a_failed_save', 'loaded_into_differently_constructed_model', 'matrix_pairs_run', 'original_refitted_after_save', 'original_used_between_saves', 'path_overwritten', 'prediction_raises_consistently', 'refit_raised', 'restart_checked_', 'save_raised_and_original_compared', 'save_returned_normally_although_fault_fired', 'scheduled_fault_did_not_fire', 'second_generation_load', 'successful_save_after_failed_save']
+EXPECTED_PROBES = ['receiver_constructed_with_its_own_distance_file', 'subgraph_poked_between_saves', 'labels_propagated_between_saves', 'non_float64_training_data', 'load_checked', 'load_of_save_made_after_a_failed_save', 'loaded_into_differently_constructed_model', 'matrix_pairs_run', 'original_refitted_after_save', 'original_used_between_saves', 'path_overwritten', 'prediction_raises_consistently', 'refit_raised', 'restart_checked_', 'save_raised_and_original_compared', 'save_returned_normally_although_fault_fired', 'scheduled_fault_did_not_fire', 'second_generation_load', 'successful_save_after_failed_save']
 
 SLOW_ARMS = ("restart", "matrix")
 
@@ -127,7 +127,11 @@ def gen_case(rng, arm, tier, k=0):
         elif r < 0.78:
             ops.append(["refit"])
         elif r < 0.84:
-            if base["kind"] in ("unsup", "unsup_prop") and rng.random() < 0.4:
+            if base["kind"] in ("knn", "unsup", "unsup_prop") and rng.random() < 0.3:
+                # public calls on the model's subgraph between saves: whatever state results,
+                # a save/load must reproduce it
+                ops.append(["poke", rng.choice(("create_arcs", "destroy_arcs", "eliminate_maxima_height", "create_arcs")), rng.randint(1, 4)])
+            elif base["kind"] in ("unsup", "unsup_prop") and rng.random() < 0.4:
                 ops.append(["propagate"])
             else:
                 ops.append(["use", [rng.randrange(len(base["pool"])) for _ in range(rng.randint(1, 4))]])
@@ -241,11 +245,26 @@ atexit.register(_close_server)
 # --------------------------------------------------------------------------- run
 
 
-def fresh_model(case, variant):
-    """A freshly constructed model of the same kind whose constructor arguments differ."""
+def fresh_model(case, variant, scratch=None):
+    """A freshly constructed model of the same kind whose constructor arguments differ
+    (other metric, other k range, sometimes its own pre-computed distance file)."""
     kind = case["kind"]
     metric = ALL_METRICS[variant % len(ALL_METRICS)]
     k = 1 + (variant >> 6) % 4
+    pre = None
+    if scratch is not None and (variant >> 9) % 4 == 0:
+        pre = os.path.join(scratch, "receiver_distances.txt")
+        if not os.path.exists(pre):
+            n_ = len(case["X"]) + len(case["pool"]) + 2
+            np.savetxt(pre, np.arange(n_ * n_, dtype=np.float64).reshape(n_, n_) % 7, delimiter=" ")
+    if pre is not None:
+        if kind == "supervised":
+            return B.supervised_mod.SupervisedOPF(distance=metric, pre_computed_distance=pre), True
+        if kind == "semi":
+            return B.semi_mod.SemiSupervisedOPF(distance=metric, pre_computed_distance=pre), True
+        if kind == "knn":
+            return B.knn_mod.KNNSupervisedOPF(max_k=k, distance=metric, pre_computed_distance=pre), True
+        return B.unsup_mod.UnsupervisedOPF(min_k=1, max_k=k, distance=metric, pre_computed_distance=pre), True
     if kind == "supervised":
         return B.supervised_mod.SupervisedOPF(distance=metric), metric != case["metric"]
     if kind == "semi":
@@ -403,7 +422,9 @@ def run_case(case):
                 if snap is None:
                     continue
                 out.steps += 1
-                fresh, differs = fresh_model(case, op[2])
+                fresh, differs = fresh_model(case, op[2], scratch)
+                if fresh.pre_computed_distance:
+                    bump(out.probes, "receiver_constructed_with_its_own_distance_file")
                 lib_call("load", fresh.load, paths[slot])
                 check_equal(fresh, snap, "model loaded from slot %d (op #%d)" % (slot, k))
                 loaded.append((fresh, snap))
@@ -441,6 +462,23 @@ def run_case(case):
                 except Exception:  # noqa: BLE001 - consistently failing predictions are compared at the loads
                     pass
                 norm.append(("use",))
+            elif kop == "poke":
+                sg = m.subgraph
+                if kind not in ("knn", "unsup", "unsup_prop") or sg is None:
+                    continue
+                out.steps += 1
+                try:
+                    if op[1] == "create_arcs":
+                        kk = max(1, min(op[2], len(sg.nodes) - 1))
+                        sg.create_arcs(kk, m.distance_fn, m.pre_computed_distance, m.pre_distances)
+                    elif op[1] == "destroy_arcs":
+                        sg.destroy_arcs()
+                    else:
+                        sg.eliminate_maxima_height(float(op[2]))
+                    bump(out.probes, "subgraph_poked_between_saves")
+                except Exception:  # noqa: BLE001 - the poke is only a way to reach more states
+                    pass
+                norm.append(("poke", op[1]))
             elif kop == "propagate":
                 if kind not in ("unsup", "unsup_prop"):
                     continue
